@@ -21,7 +21,7 @@ func init() {
 		Rule: "case = one pair of valid polygonal operands in general position (operands with more than one ring are additionally presented as ONE polygon holding all rings in random order - a hole may precede its shell, as in the library's own Difference/Union results - half of those laid out as consecutive sub-slices of one backing array, and as a MultiPolygon whose members hold their rings in random order, sometimes with an empty member; star rings of 3-60 vertices (300 thorough) with 0-3 holes, rotated comb and staircase rings, multi-polygons of 2-4 disjoint members, boxes; configurations: operands differing in size by 10^3..10^6.3 (a triangle inside / in a hole of / next to a large shape), overlapping, B inside A, B inside a hole of A, A inside B, disjoint with overlapping bounding boxes, bounding-box-disjoint on one or both axes; random ring orientation/start/closure) run through all four operations plus the reverse difference for every receiver/argument presentation {Polygon, MultiPolygon, *Bounds}^2 the shapes admit; " +
 			"each result is judged at <= 96 margin points by the harness's exact even-odd membership (A, B and result rings), by the inclusion-exclusion area identities (exact Operand areas, nesting-parity area of the result rings), ring closure and the empty-result rule; " +
 			"an evaluation is one operation result judged; non-trivial = Operand pair whose true intersection and both differences each contain a margin point (distinct by Operand hash)",
-		Assumptions: []string{"operands validated by the harness: simple rings, holes inside shells, no vertex of one Operand within 1e-7*diameter of an edge of the other (general position with a margin) - except in the phase near_coincident, which drops the margin (only exact incidences rejected) and, like the phase tiny_magnitude (coordinates 1e-13..1e-10), reports everything under one key: both exhibit defects of the external clipper listed in known_findings.json", "test points keep 1e-7*diameter clear of every input edge", "Polygonal.Area() of a result is compared only when its rings do not touch each other (geom documents hole detection as undefined there)"},
+		Assumptions: []string{"operands validated by the harness: simple rings, holes inside shells, no vertex of one Operand within 1e-7*diameter of an edge of the other (general position with a margin) - except in the phase near_coincident, which drops the margin (only exact incidences rejected) and, like the phases tiny_magnitude (coordinates 1e-13..1e-10) and huge_magnitude (1e154..1e160), reports everything under one key: they exhibit defects of the external clipper listed in known_findings.json", "phase far_from_origin (figures 1e5..1e9 times their size away from the origin) judges membership only, at points 1e-5*diameter clear of the input edges: result vertices are rounded to the float64 spacing at the offset", "test points keep 1e-7*diameter clear of every input edge", "Polygonal.Area() of a result is compared only when its rings do not touch each other (geom documents hole detection as undefined there)"},
 		Phases: []core.Phase{{Name: "ops", NumCases: func(t string) int {
 			if t == "thorough" {
 				return 120000
@@ -37,11 +37,21 @@ func init() {
 				return 6000
 			}
 			return 300
+		}}, {Name: "far_from_origin", NumCases: func(t string) int {
+			if t == "thorough" {
+				return 20000
+			}
+			return 1500
+		}}, {Name: "huge_magnitude", NumCases: func(t string) int {
+			if t == "thorough" {
+				return 6000
+			}
+			return 300
 		}}},
 		Run: run,
 		Floors: func(t string) map[string]int64 {
 			m := map[string]int64{"cfg.overlapping": 200, "cfg.b_inside_a": 100, "cfg.b_inside_hole_of_a": 100, "cfg.a_inside_b": 100, "cfg.disjoint_bbox_overlap": 100,
-				"cfg.bbox_disjoint_both_axes": 100, "cfg.bbox_disjoint_one_axis": 100, "cfg.box_corners_inside_concave": 100, "cfg.tiny_next_to_huge": 100, "cfg.empty_operand": 100, "cfg.near_coincident": 150, "scale.1e-13..1e-10": 150, "scale.1e-6..1e15": 150, "points.judged": 100000, "area.identities_checked": 1000, "area.method_compared": 1000, "result.empty_correct": 500, "kind.nested": 50, "presentation.rings_shuffled_into_one_polygon": 300}
+				"cfg.bbox_disjoint_both_axes": 100, "cfg.bbox_disjoint_one_axis": 100, "cfg.box_corners_inside_concave": 100, "cfg.tiny_next_to_huge": 100, "cfg.empty_operand": 100, "cfg.near_coincident": 150, "scale.1e-13..1e-10": 150, "scale.1e154..1e160": 150, "offset.1e5_sizes": 150, "offset.1e8_sizes": 150, "scale.1e-6..1e15": 150, "points.judged": 100000, "area.identities_checked": 1000, "area.method_compared": 1000, "result.empty_correct": 500, "kind.nested": 50, "presentation.rings_shuffled_into_one_polygon": 300}
 			for _, a := range []string{"Polygon", "MultiPolygon", "*Bounds"} {
 				for _, b := range []string{"Polygon", "MultiPolygon", "*Bounds"} {
 					m["pair."+a+"x"+b] = 40
@@ -380,8 +390,29 @@ func run(c *core.Ctx, idx int) {
 		scale = math.Pow(10, r.Range(-13, -10))
 		c.Count("scale.1e-13..1e-10")
 	}
+	hugeBy := 0.0
+	if c.Phase == "huge_magnitude" {
+		// coordinates of magnitude 1e154 .. 1e160: the product of two coordinates overflows. The
+		// figures are generated at unit scale and multiplied by an exact power of two afterwards.
+		scale = 1
+		hugeBy = math.Ldexp(1, r.IntRange(512, 532))
+		c.Count("scale.1e154..1e160")
+	}
 	ox, oy := r.Range(-5, 5)*scale, r.Range(-5, 5)*scale
+	if c.Phase == "far_from_origin" {
+		// figures 1e5 .. 1e9 times their own size away from the origin (a parcel in projected
+		// coordinates is 1e5..1e7 away): the coordinates keep 7 to 11 significant digits of the shape
+		f := math.Pow(10, r.Range(5, 9))
+		ox, oy = f*scale*float64(1-2*r.Intn(2)), f*scale*r.Range(-1, 1)
+		if r.Bool() {
+			ox, oy = oy, ox
+		}
+		c.Count(fmt.Sprintf("offset.1e%d_sizes", int(math.Log10(f))))
+	}
 	cfg := configs[r.Intn(len(configs))]
+	if c.Phase == "far_from_origin" || c.Phase == "huge_magnitude" {
+		cfg = []string{"overlapping", "overlapping", "b_inside_a", "disjoint_bbox_overlap"}[r.Intn(4)]
+	}
 	if c.Phase == "tiny_magnitude" {
 		cfg = []string{"overlapping", "b_inside_a", "disjoint_bbox_overlap"}[r.Intn(3)]
 	}
@@ -396,6 +427,8 @@ func run(c *core.Ctx, idx int) {
 			key = "near-coincident-operands"
 		case "tiny_magnitude":
 			key = "tiny-magnitude-operands"
+		case "huge_magnitude":
+			key = "huge-magnitude-operands"
 		}
 		c.Violate(key, what, detail)
 	}
@@ -555,6 +588,24 @@ func run(c *core.Ctx, idx int) {
 		sx, sy := float64(1-2*r.Intn(2)), float64(1-2*r.Intn(2))
 		b = GenOperand(r, ox+sx*dx, oy+sy*dy, rb, kinds[r.Intn(len(kinds))], maxVerts)
 	}
+	if hugeBy != 0 {
+		for _, o := range []*Operand{&a, &b} {
+			for _, pg := range o.Polys {
+				for _, ring := range pg {
+					for i := range ring {
+						ring[i].X *= hugeBy
+						ring[i].Y *= hugeBy
+					}
+				}
+			}
+			if o.Box != nil {
+				o.Box = &geom.Bounds{Min: geom.Point{X: o.Box.Min.X * hugeBy, Y: o.Box.Min.Y * hugeBy}, Max: geom.Point{X: o.Box.Max.X * hugeBy, Y: o.Box.Max.Y * hugeBy}}
+			}
+			o.Cx, o.Cy, o.Out, o.In = o.Cx*hugeBy, o.Cy*hugeBy, o.Out*hugeBy, o.In*hugeBy
+			o.Holes = nil
+			o.finish()
+		}
+	}
 	diam := 0.0
 	minx, miny, maxx, maxy := math.Inf(1), math.Inf(1), math.Inf(-1), math.Inf(-1)
 	for _, o := range []*Operand{&a, &b} {
@@ -566,6 +617,13 @@ func run(c *core.Ctx, idx int) {
 	}
 	diam = math.Hypot(maxx-minx, maxy-miny)
 	delta := 1e-7 * diam
+	if c.Phase == "far_from_origin" {
+		// the vertices of a result are rounded to the spacing of float64 at the offset (up to
+		// 1e-7 of the size): test points keep 1e-5 of the diameter clear of the input edges, and
+		// only membership is judged (areas of results carry that rounding too)
+		diam = math.Hypot(maxx-minx, maxy-miny)
+		delta = 1e-5 * diam
+	}
 	if gpDelta < 0 {
 		gpDelta = delta
 	}
@@ -727,7 +785,7 @@ func run(c *core.Ctx, idx int) {
 				// result area by nesting parity
 				ar, ok := nestedArea(er)
 				areas[op], areaOK[op] = ar, ok
-				if ok && !empty && !ringsTouch(er, delta) {
+				if ok && !empty && !ringsTouch(er, delta) && c.Phase != "far_from_origin" {
 					c.Count("area.method_compared")
 					var got float64
 					if !c.Guard("Area(result)", detail, func() { got = res.Area() }) {
@@ -742,7 +800,7 @@ func run(c *core.Ctx, idx int) {
 			for _, ok := range areaOK {
 				allOK = allOK && ok
 			}
-			if allOK {
+			if allOK && c.Phase != "far_from_origin" {
 				c.Count("area.identities_checked")
 				tol := 1e-9 * (areaA + areaB)
 				I, U, D, X, Dr := areas[0], areas[1], areas[2], areas[3], areas[4]
